@@ -482,8 +482,13 @@ C14_GEN = {
     "quick": [("US1", "TRUE", "TRUE", "FALSE", 1, "FALSE", 120, {"verbose": 0, "show_output": False, "report_time": False}),
               ("US2", "TRUE", "FALSE", "TRUE", 1, "FALSE", 120, {"verbose": 0, "show_output": True, "report_time": True}),
               ("US3", "FALSE", "TRUE", "FALSE", 0, "TRUE", 100, {"verbose": 1, "show_output": False, "report_time": False}),
-              ("US1np", "TRUE", "TRUE", "FALSE", 1, "FALSE", 60, {"verbose": 0, "show_output": False, "report_time": False})],
-    "thorough": [("US1", "TRUE", "TRUE", "FALSE", 1, "FALSE", 1500, {"verbose": 0, "show_output": False, "report_time": False}),
+              ("US1np", "TRUE", "TRUE", "FALSE", 1, "FALSE", 60, {"verbose": 0, "show_output": False, "report_time": False}),
+              ("US2", "TRUE", "TRUE", "FALSE", 1, "FALSE", 80, {"verbose": 0, "show_output": True, "report_time": False, "decorate": "basic"}),
+              ("US1", "TRUE", "FALSE", "FALSE", 0, "FALSE", 30, {"verbose": 0, "show_output": False, "report_time": False, "decorate": "cdata"})],
+    "thorough": [
+                 ("US1", "TRUE", "TRUE", "FALSE", 1, "FALSE", 800, {"verbose": 0, "show_output": True, "report_time": False, "decorate": "basic"}),
+                 ("US3", "TRUE", "FALSE", "TRUE", 1, "FALSE", 800, {"verbose": 1, "show_output": False, "report_time": False, "decorate": "basic"}),
+                 ("US2", "TRUE", "TRUE", "FALSE", 1, "FALSE", 200, {"verbose": 0, "show_output": False, "report_time": False, "decorate": "cdata"}),("US1", "TRUE", "TRUE", "FALSE", 1, "FALSE", 1500, {"verbose": 0, "show_output": False, "report_time": False}),
                  ("US1", "TRUE", "TRUE", "TRUE", 1, "TRUE", 1000, {"verbose": 1, "show_output": True, "report_time": True}),
                  ("US2", "TRUE", "TRUE", "TRUE", 1, "FALSE", 1500, {"verbose": 0, "show_output": True, "report_time": False}),
                  ("US3", "TRUE", "TRUE", "FALSE", 1, "TRUE", 1500, {"verbose": 2, "show_output": False, "report_time": True}),
@@ -561,7 +566,8 @@ def check_c14(tier):
         for b in v["bad"]:
             rec = recs_all[vid]
             nopath = not rec["universe"][0].get("path", True)
-            sig = f"C14:{b[0]}:{b[1]}" + (":pathless" if nopath else "")
+            sig = f"C14:{b[0]}:{b[1]}" + (":pathless" if nopath else "") + \
+                (":decorated-" + rec["opts"]["decorate"] if rec["opts"].get("decorate") else "")
             violations.append({"sig": sig, "what": f"{b[0]}: {b[1]} (stream {vid})",
                                "replay": {"property": "C14", "reporter": b[0], "rule": b[1],
                                           "detail": v["detail"],
@@ -583,6 +589,6 @@ def check_c14(tier):
     return {"level": "model_checking", "coverage": cov, "violations": violations,
             "assumptions": ["the reports are parsed back by independent parsers (python json, xml.etree, a line grammar)",
                             "facts carry no attempt number (Cucumber JSON merges the attempts of a scenario): bag semantics",
-                            "names are plain tokens in this round (escaping of markup / quotes / non-ASCII not yet exercised)",
+                            "decorated universes append quotes, markup, a CDATA terminator, non-ASCII characters and a backslash to every name and step text",
                             "streams without replayed events after run-Finished"],
             "wall_s": time.time() - t0}
